@@ -82,7 +82,7 @@ class Prog:
             for lst in (n["y"], n["z"]):
                 if n["k"] in ("If", "While", "IOManip", "Iterate"):
                     yield from self.walk_stmts(lst)
-            if n["k"] == "If" and n["r"]:
+            if n["k"] in ("If", "Iterate") and n["r"]:
                 yield from self.walk_stmts([n["r"]])
 
     def literals(self):
@@ -130,7 +130,7 @@ def enrich(prog, rng, max_in=3, max_inputs=10, max_choices=4, dstcap=3):
         for i, n in prog.walk_stmts(f["z"]):
             if n["k"] == "Var":
                 k, ln = prog.tykind(n["l"])
-                if k not in ("num", "status", "arr", "slice"):
+                if k not in ("num", "status", "arr", "slice", "reader", "writer"):
                     return None, "local kind " + k
                 if k == "arr" and (ln > 16 or ln <= 0 or prog.tykind(prog.nd(n["l"])["r"])[0] != "num"):
                     return None, "local array shape"
@@ -144,7 +144,8 @@ def enrich(prog, rng, max_in=3, max_inputs=10, max_choices=4, dstcap=3):
             cands = []
             for p in params:
                 if p["kind"] != "num":
-                    cands.append([0])
+                    # an io argument is a reference: the buffer the environment passes (spec/WuffsCore.tla, "I/O objects")
+                    cands.append([[0, "src" if p["kind"] == "reader" else "dst"]])
                     continue
                 blo, bhi = NUM.get(prog.base_name(p["ty"]), (0, 1))
                 rlo, rhi = prog.num_range(p["ty"])
@@ -152,12 +153,13 @@ def enrich(prog, rng, max_in=3, max_inputs=10, max_choices=4, dstcap=3):
                 c |= {v + dlt for v in lits for dlt in (-1, 0, 1)}
                 c = sorted(v for v in c if blo <= v <= bhi and -LIM < v < LIM)
                 cands.append(c)
+            cands = [[tuple(x) if isinstance(x, list) else x for x in c] for c in cands]
             seen = set()
             tries = 0
             # boundary coverage first: a combination of every argument's smallest and of every argument's largest candidate
             # (a guard like `args.n < 8` must see both sides, also across a resumption with changed arguments)
             for pickf in (min, max):
-                combo = tuple(pickf(c) for c in cands)
+                combo = tuple(pickf(c) if p["kind"] == "num" else c[0] for p, c in zip(params, cands))
                 if combo not in seen:
                     seen.add(combo)
                     choices.append([{"n": p["n"], "v": x} for p, x in zip(params, combo)])
@@ -169,7 +171,7 @@ def enrich(prog, rng, max_in=3, max_inputs=10, max_choices=4, dstcap=3):
                     common &= set(c)
                 if common:
                     v = rng.choice(sorted(common))
-                    combo = tuple(v if p["kind"] == "num" else 0 for p in params)
+                    combo = tuple(v if p["kind"] == "num" else c[0] for p, c in zip(params, cands))
                     if combo not in seen:
                         seen.add(combo)
                         choices.append([{"n": p["n"], "v": x} for p, x in zip(params, combo)])
@@ -185,7 +187,7 @@ def enrich(prog, rng, max_in=3, max_inputs=10, max_choices=4, dstcap=3):
             if not any(p["kind"] == "num" for p in params):
                 choices = choices[:1]
         funcs.append({"id": fi, "name": f["a"], "pub": pub, "eff": f["eff"], "rets": rk, "params": params, "locals": locs,
-                      "resum": [], "choices": choices})
+                      "resum": [], "choices": choices, "choosy": bool(f["f"] & 0x40000), "cpuarch": bool(f["f"] & 0x80000)})
     # inputs over a small alphabet drawn from the program's literals
     alpha = sorted({0, 1, 255} | {v for v in lits if 0 <= v <= 255})
     if len(alpha) > 4:
@@ -201,6 +203,23 @@ def enrich(prog, rng, max_in=3, max_inputs=10, max_choices=4, dstcap=3):
         rest = [i for i in inputs if i not in head]
         rng.shuffle(rest)
         inputs = head + rest[: max(0, max_inputs - len(head))]
+    # multi-byte reads / peeks / copies wider than max_in need longer inputs to complete at all: a few inputs of the widest
+    # width + 1 (small values, so that they stay inside the 2^30 window, and one with 0xFF bytes that leaves it)
+    widest = 0
+    for n in N:
+        if n["k"] == "Expr" and n["a"] == "." and n["c"]:
+            m = re.match(r"(?:read|peek)_u(\d+)", n["c"])
+            if m:
+                widest = max(widest, int(m.group(1)) // 8)
+            elif n["c"].startswith("limited_copy_u32") or n["c"] in ("copy_from_slice",):
+                widest = max(widest, 4)
+    if widest > max_in:
+        ln = min(widest + 1, 9)
+        small = [a for a in alpha if a < 64] or [0]
+        extra = [[rng.choice(small) if i < 3 else 0 for i in range(ln)] for _ in range(2)]
+        extra.append([rng.choice(alpha) for _ in range(ln)])
+        extra.append([(i + 1) & 0x3F for i in range(ln)])
+        inputs += [e for e in extra if e not in inputs]
     statuses = []
     for si in d["statuses"] or []:
         statuses.append(prog.nd(si)["c"])
@@ -331,7 +350,7 @@ def history_script(pidx, h):
     inp = "".join("%02x" % b for b in h["input"]) or "-"
     lines = ["H %d %s" % (pidx, inp)]
     for c in h["hist"]:
-        kv = " ".join("%s=%d" % (a["n"], a["v"]) for a in c["args"])
+        kv = " ".join("%s=%d" % (a["n"], a["v"]) for a in c["args"] if isinstance(a["v"], int))
         lines.append("C %s %d %d %d %s" % (c["fn"], c["wi0"], 1 if c["closed0"] else 0, c["cap0"], kv))
     return lines
 
